@@ -1,6 +1,7 @@
 (** C13: generated parsers never crash or misindex on arbitrary input text. *)
-From PegV Require Import Base.Tac Spec.Syntax Spec.Peg Model.Machine Model.Gen Model.Analyses Model.Emit Model.SEmit Model.Exec
-  Proofs.Forest Proofs.Top Proofs.SEmitFile Properties.Example.
+From PegV Require Import Base.Tac Spec.Syntax Spec.Peg Spec.WF Model.Machine Model.Gen Model.Analyses Model.Optimize Model.Emit Model.SEmit Model.Exec Model.Premises
+  Proofs.Forest Proofs.OptSound Proofs.Top Proofs.SEmitFile Proofs.OptClosed Properties.Example.
+Local Open Scope nat_scope.
 
 (** Whenever the semantics has a result, the machine returns a verdict - never [Crash], the model's
     value for a buffer read outside runes+sentinel, a call through a nil rule slot, or slicing the
@@ -27,6 +28,54 @@ Theorem C13_generated_code_never_crashes :
     ~ xcall buf penv (mk_opts true memo inline g) (gen_fn g ptx inline) r (reset st0) Crash.
 Proof. exact generated_code_never_crashes. Qed.
 Print Assumptions C13_generated_code_never_crashes.
+
+(** Termination at the level of the generated statements, with no hypothesis that the semantics has a result: for every
+    grammar with a well-formedness certificate (no left recursion, no loop over an expression that can succeed without
+    consuming), two alternatives per choice and every reference defined, on EVERY input and from EVERY earlier parser
+    state the entry's function has an execution, that execution returns a verdict - no crash, no divergence - and no
+    other execution exists (Ford's totality, [generated_code_is_peg], determinism of the goto semantics;
+    Proofs/OptClosed.v).  The second theorem is the same for the file generated from the optimised tree (-switch). *)
+Theorem C13_generated_code_terminates :
+  forall g tab rank, wf_b g tab rank = true -> good_grammar g -> good_switches g -> grammar_alt2 g -> closed_names g ->
+  forall ptx buf penv, good_buf buf ->
+  forall memo inline r rb st0,
+    nth_error g r = Some rb -> rb <> RNil -> slot_ok g inline r -> reached (count_rules g) r = true ->
+    exists b st', xcall buf penv (mk_opts true memo inline g) (gen_fn g ptx inline) r (reset st0) (Ret b st') /\
+      forall res, xcall buf penv (mk_opts true memo inline g) (gen_fn g ptx inline) r (reset st0) res -> res = Ret b st'.
+Proof. exact generated_code_terminates. Qed.
+Print Assumptions C13_generated_code_terminates.
+
+Theorem C13_generated_code_switch_terminates :
+  forall g tab rank, wf_b g tab rank = true -> good_grammar g ->
+  (forall r b, nth_error g r = Some (RBody b) -> ranges_ok b = true) ->
+  grammar_alt2 g -> closed_names g ->
+  forall ptx buf penv, good_buf buf -> valid_buf buf ->
+  forall memo inline r rb st0,
+    nth_error g r = Some rb -> rb <> RNil ->
+    slot_ok (optimize g) inline r -> reached (count_rules (optimize g)) r = true ->
+    exists b st', xcall buf penv (mk_opts true memo inline (optimize g)) (gen_fn (optimize g) ptx inline) r (reset st0) (Ret b st') /\
+      forall res, xcall buf penv (mk_opts true memo inline (optimize g)) (gen_fn (optimize g) ptx inline) r (reset st0) res -> res = Ret b st'.
+Proof. exact generated_code_switch_terminates. Qed.
+Print Assumptions C13_generated_code_switch_terminates.
+
+(** ... and for the -noast file *)
+Theorem C13_generated_code_noast_terminates :
+  forall g tab rank, wf_b g tab rank = true -> good_grammar g -> good_switches g -> grammar_alt2 g -> closed_names g ->
+  forall ptx buf penv, good_buf buf ->
+  forall inline r rb st0,
+    (forall rb0, nth_error g ptx = Some rb0 -> rb0 = RNil) ->
+    nth_error g r = Some rb -> rb <> RNil ->
+    o_inline (mk_opts false false inline g) r = false -> reached (count_rules g) r = true ->
+    exists b st', xcall buf penv (mk_opts false false inline g) (gen_fn_noast g ptx inline) r (reset st0) (Ret b st') /\
+      forall res, xcall buf penv (mk_opts false false inline g) (gen_fn_noast g ptx inline) r (reset st0) res -> res = Ret b st'.
+Proof. exact generated_code_noast_terminates. Qed.
+Print Assumptions C13_generated_code_noast_terminates.
+
+(** non-vacuity: the example grammar meets the premises of the termination theorems *)
+Example C13_terminates_nonvacuous :
+  wf_auto ex_g = true /\ good_grammar_b ex_g = true /\ grammar_alt2_b ex_g = true /\ closed_names_b ex_g = true /\
+  reached (count_rules ex_g) 0 = true.
+Proof. vm_compute. repeat split; reflexivity. Qed.
 
 Example C13_nonvacuous :
   verdict_of (peg_parse ex_g ex_ptx [] (std_penv []) 60 0) = Some None /\
